@@ -124,11 +124,9 @@ Lookup(tab, sp, dflt) ==
 OpKind(sp)    == Lookup(OpTable, sp, "OtherOp")
 IdentKind(sp) == Lookup(KwTable, sp, "Ident")
 PunctKind(sp) == Lookup(PunctTable, sp, "?")
+FixedTable == OpTable \o KwTable \o PunctTable
 SpellingOf(kind) ==     \* inverse of the three tables (keywords and symbols)
-  LET all == OpTable \o KwTable \o PunctTable
-  IN  all[CHOOSE k \in 1..Len(all) : all[k][2] = kind][1]
-IsFixedKind(kind) == LET all == OpTable \o KwTable \o PunctTable
-                     IN  \E k \in 1..Len(all) : all[k][2] = kind
+  FixedTable[CHOOSE k \in 1..Len(FixedTable) : FixedTable[k][2] = kind][1]
 
 \* result of scanning one token
 TokRes(t, nxt) == [st |-> "tok", tok |-> t, nxt |-> nxt, cls |-> ""]
@@ -444,6 +442,7 @@ Abut(a, b) ==
   /\ ~(a.cat = "ws" /\ b.cat = "ws")
   /\ (a.cat = "id"  => b.cat \notin {"id", "num"})
   /\ (a.cat = "num" => b.cat \notin {"id", "num"} /\ b.sp # <<46>>)
+  /\ (a.cat = "str" /\ a.sp[1] = 64 => b.sp[1] # a.sp[2])   \* verbatim: a doubled quote would continue it
   /\ (a.cat = "op"  =>
         CASE b.cat = "op" -> FALSE
           [] b.cat = "tb" -> Last(a.sp) # 124
